@@ -7,6 +7,11 @@ HOOK_COMMITS = []   # filled as hooks land in /repo
 
 # id -> (category, technique, text, note, design_ref)
 CHECKS = {
+ "C08": ("exploration",
+         "bounded exhaustive enumeration (E1): every digit tuple of small radices x every signed offset, boundary classes for radices up to 62, against the exact rational value mod 1",
+         "Normalisation, the eight shift forms, the four big-accumulator normalisations (i64 and i128) are executed for every digit tuple with digits in [-2^(b+1), 2^(b+1)] (b<=3 quick, b<=4 thorough; sizes 1..3; all radix pairs; every offset in +-(a_bits+2b)), at odd packing widths for SIMD tails, and on named boundary classes for radices up to 62; integer encoding for every (b,k). Each output is compared with input*2^offset on the torus as an exact big integer: within one unit, exact when long enough, digits in range. Two defect classes found on the unchanged tree are listed as known findings; one was repaired.",
+         "Trusted: the value oracle (pvc-model torus, ~60 lines). Input digits are bounded (2^62 / 2^118) so that kernel-internal sums cannot overflow. Known findings KF-C08-1/2 mask violations in their own classes (negative offsets beyond the output / cross-radix negative offsets).",
+         "3/C08"),
  "C09": ("exploration",
          "bounded exhaustive enumeration (E1) of shapes x parameters x value classes against an index-level ring model, on the real HAL",
          "Every coefficient-domain operation (small and big accumulators) is executed on the real library for the full product of ring degrees, size triples, column pairs, every rotation amount in [-4N,4N], every odd Galois element, every limb index and ring ratio, on four backends, and compared limb-exactly with Z[X]/(X^N+1) written from the definition; group laws are enumerated over all pairs. This is the right level because the operations branch only on these small integers.",
